@@ -68,14 +68,13 @@ def unique_identifier(model: Model, C: ClassInfo) -> Tuple[bool, str]:
     unconditionally (so that two instances are never equal)?"""
     why = "no compared field is fed by an instance counter"
     for n, fi in C.all_fields().items():
-        if not (fi.compare and fi.default_factory is not None and isinstance(fi.default_factory, ast.Lambda)):
+        if not (fi.compare and fi.default_factory is not None):
             continue
-        body = fi.default_factory.body
-        if not (isinstance(body, ast.Attribute) and isinstance(body.value, ast.Name)):
+        from .common import factory_counter
+        fc = factory_counter(model, fi.owner.module, fi.default_factory)
+        if fc is None:
             continue
-        cname, counter = body.value.id, body.attr
-        if model.maybe_cls(cname) is None:
-            continue
+        cname, counter = fc
         post = None
         for k in C.mro():
             if "__post_init__" in k.methods:
@@ -184,7 +183,32 @@ def h5(model: Model, rep: Report, cg: CallGraph):
                     trail.append(f"{path}:{X.name} by identity")
                     return None
                 if ek == "explicit":
-                    raise AnalysisError(f"C03.H5: {X.name} (in the key of {M.qualname} through {path}) defines its own __eq__; which fields it compares is not derived")
+                    # a hand-written __eq__: what it compares is what it (and the accessors it goes through) reads on self
+                    eqf = X.resolve("__eq__")
+                    hashf = X.resolve("__hash__")
+                    if eqf is None or hashf is None:
+                        raise AnalysisError(f"C03.H5: {X.name} (in the key of {M.qualname} through {path}): __eq__ / __hash__ not found")
+                    compared: Set[str] = set()
+                    work = [eqf]
+                    seen_f = set()
+                    while work:
+                        g = work.pop()
+                        if g in seen_f:
+                            continue
+                        seen_f.add(g)
+                        for n_ in ast.walk(g.node):
+                            if isinstance(n_, ast.Attribute) and isinstance(n_.value, ast.Name) and n_.value.id == g.self_name:
+                                compared.add(n_.attr)
+                                acc = X.resolve(n_.attr)
+                                if acc is not None and acc.kind == "property":
+                                    work.append(acc)
+                    flds = X.all_fields()
+                    stored = set(flds) | set(cg.res.init_attrs(X))
+                    for a in sorted(reads_on(X)):
+                        if a in stored and a not in compared:
+                            return f"{X.name}.{a} is read (through {path}) but the hand-written {X.name}.__eq__ does not look at it"
+                    trail.append(f"{path}:{X.name} __eq__ reads {sorted(compared & stored)}")
+                    return None
                 has_id, idw = unique_identifier(model, X)
                 if has_id:
                     trail.append(f"{path}:{X.name} unique by '{idw}'")
@@ -283,44 +307,106 @@ def _calls_clearing(ev: Evaluator, term: Term, clearing: List[FunctionInfo], exc
     return False
 
 
-def clearing_functions(model: Model, memo: FunctionInfo) -> List[FunctionInfo]:
-    """Package functions on whose every normal exit ``memo`` has been cleared: directly, or (fixed point) through a call
-    of another clearing function."""
+def _with_of_manager(ev: Evaluator, e: Event, mfns: List[FunctionInfo], mclasses: List[ClassInfo], exclude: Optional[FunctionInfo] = None) -> bool:
+    """``with M():`` where M is one of the exit-clearing context managers"""
+    if e.kind != "with" or e.term is None:
+        return False
+    if _calls_clearing(ev, e.term, mfns, exclude=exclude):
+        return True
+    for c in mclasses:
+        if subterms(e.term, lambda y, c=c: (y[0] == "new" and y[1] == c.name) or (y[0] == "call" and y[1] == ("cls", c.name))):
+            return True
+    return False
+
+
+def _clearing_analysis(model: Model, memo: FunctionInfo):
+    """Joint fixed point of (a) package functions on whose every normal exit ``memo`` has been cleared -- directly, through a call of another clearing
+    function, or because a ``with`` block of an exit-clearing context manager completed -- and (b) the exit-clearing context managers: generator functions
+    under @contextmanager whose every path clears after the yield, and classes whose ``__exit__`` clears on every path compatible with 'no exception'."""
     cache = model.__dict__.setdefault("_clearing_cache", {})    # per model object (never keyed by id(): worker processes analyse many trees)
     key = memo.qualname
     if key in cache:
         return cache[key]
     target = ("fn", memo.qualname)
     out: List[FunctionInfo] = []
+    mfns: List[FunctionInfo] = []
+    mclasses: List[ClassInfo] = []
     analysed: Dict[FunctionInfo, Tuple[Evaluator, List[Path]]] = {}
-    for _round in range(4):
-        names = {f.name for f in out}
+
+    def paths_of(f):
+        if f not in analysed:
+            ev = Evaluator(model, inline_methods=False)
+            try:
+                analysed[f] = (ev, PathEnumerator(ev).function_paths(f, self_cls=f.cls))
+            except Unsupported:
+                analysed[f] = (ev, None)
+        return analysed[f]
+
+    def mentions(f) -> bool:
+        src = ast.unparse(f.node)
+        names = {g.name for g in out} | {g.name for g in mfns} | {c.name for c in mclasses}
+        return "cache_clear" in src or "clear_lru_cache" in src or any((n + "(") in src for n in names)
+
+    def clears(ev, e, exclude=None) -> bool:
+        return e.kind in ("effect", "with") and e.term is not None and (_direct_clear(e.term, target) or _calls_clearing(ev, e.term, out, exclude=exclude))
+
+    def path_clears(ev, p, exclude=None) -> bool:
+        """some event of the path clears; a ``with`` of an exit-clearing manager counts once its block is left (the path is a normal one)"""
+        for e in p.events:
+            if clears(ev, e, exclude) or _with_of_manager(ev, e, mfns, mclasses, exclude):
+                return True
+        return False
+    for _round in range(5):
         grew = False
         for f in model.all_functions():
-            if f in out or f is memo:
+            is_cm = any(d in ("contextlib.contextmanager", "contextmanager") for d in f.decorators)
+            if f is memo or f in out or f in mfns:
                 continue
-            if any(d in ("contextlib.contextmanager", "contextmanager") for d in f.decorators):
+            if not mentions(f):
                 continue
-            if f not in analysed:
-                src = ast.unparse(f.node)
-                if "cache_clear" not in src and "clear_lru_cache" not in src and not any(("." + n + "(") in src or (n + "(") in src for n in names):
-                    continue
-                ev = Evaluator(model, inline_methods=False)
-                try:
-                    analysed[f] = (ev, PathEnumerator(ev).function_paths(f, self_cls=f.cls))
-                except Unsupported:
-                    continue
-            ev, ps = analysed[f]
+            ev, ps = paths_of(f)
+            if ps is None:
+                continue
             normal = [p for p in ps if p.exit in ("return", "fall")]
-            if normal and all(any(e.kind in ("effect", "with") and e.term is not None
-                                  and (_direct_clear(e.term, target) or _calls_clearing(ev, e.term, out, exclude=f)) for e in p.events)
-                              for p in normal):
+            if not normal:
+                continue
+            if is_cm:
+                ok = True
+                for p in normal:
+                    ys = [i for i, e in enumerate(p.events) if e.kind == "yield"]
+                    if len(ys) != 1 or not path_clears(ev, Path(p.cond, p.events[ys[0] + 1:], p.env), exclude=f):
+                        ok = False
+                if ok:
+                    mfns.append(f)
+                    grew = True
+                continue
+            if f.name == "__exit__" and f.cls is not None and "__enter__" in f.cls.methods:
+                if f.cls in mclasses:
+                    continue
+                params = [p_ for p_ in f.param_names if p_ != f.self_name]
+                no_exc = {t_cmp("is", sym(params[0]), NONE): TRUE} if params else {}
+                from ..sym import FALSE as _F, subst as _subst
+                relevant = [p for p in normal if _subst(p.cond, no_exc) != _F]
+                if relevant and all(path_clears(ev, p, exclude=f) for p in relevant):
+                    mclasses.append(f.cls)
+                    grew = True
+                continue
+            if all(path_clears(ev, p, exclude=f) for p in normal):
                 out.append(f)
                 grew = True
         if not grew:
             break
-    cache[key] = out
-    return out
+    cache[key] = (out, mfns, mclasses)
+    return cache[key]
+
+
+def clearing_functions(model: Model, memo: FunctionInfo) -> List[FunctionInfo]:
+    return _clearing_analysis(model, memo)[0]
+
+
+def exit_clearing_managers(model: Model, memo: FunctionInfo) -> Tuple[List[FunctionInfo], List[ClassInfo]]:
+    a = _clearing_analysis(model, memo)
+    return a[1], a[2]
 
 
 def clears_after_or_neutral(model: Model, writer: FunctionInfo, node: ast.AST, memo: FunctionInfo) -> Tuple[bool, str]:
@@ -363,9 +449,21 @@ def clears_after_or_neutral(model: Model, writer: FunctionInfo, node: ast.AST, m
         # the statement itself, or a statement the syntax normaliser derived from it (derived nodes carry the position of their source)
         return n is node or (pos(n) == pos(node) and pos(n)[0] is not None)
 
+    exit_fns, exit_classes = exit_clearing_managers(model, memo)
+
+    def exit_clears(e: Event) -> bool:
+        """``with M():`` where M clears the memo when its block completes"""
+        return _with_of_manager(ev, e, exit_fns, exit_classes, exclude=writer)
+    with_stack: List[bool] = []
+
     def scan(p: Path, cond: Term, state: str, in_with: int) -> str:
         cond = t_and(cond, p.cond)
         for e in p.events:
+            if e.kind == "with":
+                with_stack.append(exit_clears(e))
+            elif e.kind == "endwith" and with_stack:
+                if with_stack.pop() and state == "dirty":
+                    state = "clean"   # the block of an exit-clearing context manager completed
             if is_node(e.node) and e.kind in ("store", "effect", "aug"):
                 seen[0] += 1
                 if not neutral(e, cond):
